@@ -16,5 +16,5 @@ def queries(tier, prop='C18'):
     ub = prop == 'C02'
     out = []
     for e in ['div', 'div_l', 'div_ll', 'ldiv', 'lldiv', 'imaxdiv', 'labs', 'llabs']:
-        out.append(dict(entry='q_' + e, cfg={}, unwind=4, budget=120 if tier == 'quick' else 600, solver=(['cvc5'] if e not in ('labs', 'llabs') else ['cadical']), ub=ub, nofunc=ub))
+        out.append(dict(entry='q_' + e, cfg={}, unwind=4, budget=120 if tier == 'quick' else 600, solver=(['cvc5', 'kissat'] if e not in ('labs', 'llabs') else ['cadical']), ub=ub, nofunc=ub))
     return out
